@@ -25,6 +25,10 @@ ASSUME = [
 ]
 
 KNOWN_KEY = "prekey-id-reissued:refill-after-highest-issued-id-was-consumed"
+# second open finding: a key consumed while it sits in the layer's in-memory _unsent_prekeys list
+# (possible only after a NON-passive login with keys waiting) is offered again at the next
+# passive login on the same layer instance.  Matched on exactly those keys, nothing else.
+KNOWN_KEY2 = "consumed-key-reoffered:stale-unsent-list-after-nonpassive-login"
 SERVER = "s.whatsapp.net"
 
 
@@ -305,9 +309,12 @@ class HistoryRun(object):
     def __init__(self, ctx, batch, script, tag):
         self.ctx, self.batch, self.script, self.tag = ctx, batch, script, tag
         self.ops = []            # resolved ops
+        self.op_wf = []          # per resolved op: was the script step server-realistic
         self.steps = []          # (op, impl events canonical, impl state)
         self.problems = []       # (name, detail, key)
         self.reuse_seen = False
+        self.stale_consumed = set()   # (id, key bytes) consumed while in layer._unsent_prekeys
+        self.stale_serial = set()     # the same as (id, serial)
         self.nontrivial = set()
 
     def run(self):
@@ -339,6 +346,7 @@ class HistoryRun(object):
                 evs = rig.do(op, before)
                 after = rig.observe()
                 self.ops.append(op)
+                self.op_wf.append(bool(sop.get("wf", True)))
                 cevs = canon_impl_events(rig, evs)
                 self.steps.append((op, cevs, after))
                 # ---- bookkeeping of the outside world
@@ -374,6 +382,9 @@ class HistoryRun(object):
                     if e[0] == "consumed":
                         kid = op[1]
                         b = rig.handed[kid]
+                        if [kid, e[1]] in before["unsent"]:
+                            self.stale_consumed.add((kid, b["value"]))
+                            self.stale_serial.add((kid, e[1]))
                         offered_live.pop((kid, b["value"]), None)
                         self.nontrivial.add("consume")
                     if e[0] in ("invalid-message", "wrong-plaintext", "no-bundle", "unexpected-stanza", "broadcast"):
@@ -399,15 +410,19 @@ class HistoryRun(object):
                         self.problems.append(("oracle:offered_key_available", {
                             "step": len(self.ops) - 1, "id": i,
                             "what": "an offered, unconsumed key is no longer in the store"},
+                            KNOWN_KEY2 if (i, val) in self.stale_consumed else
                             KNOWN_KEY if self.reuse_seen else None))
                 if op[0] == "authed" and op[1] and connected and hist_wf:
                     want = sorted([r[0], r[1]] for r in before["rows"] if not r[2])
                     got = sorted(k for e in cevs if e[0] == "upload" for k in e[3])
                     if want != got:
+                        extra = [k for k in got if k not in want]
+                        only_stale = extra and all(tuple(k) in self.stale_serial for k in extra) and \
+                            all(k in got for k in want)
                         self.problems.append(("oracle:reoffer", {
                             "step": len(self.ops) - 1, "stored_unconfirmed": want, "offered": got,
                             "what": "passive login did not offer exactly the stored unconfirmed keys"},
-                            KNOWN_KEY if self.reuse_seen else None))
+                            KNOWN_KEY2 if only_stale else KNOWN_KEY if self.reuse_seen else None))
                     if want:
                         self.nontrivial.add("reoffer")
                 if op[0] == "authed" and hist_wf:
@@ -418,8 +433,10 @@ class HistoryRun(object):
                             "step": len(self.ops) - 1, "ids": again,
                             "what": "keys of an already confirmed upload were offered again at a login"},
                             KNOWN_KEY if self.reuse_seen else None))
-                if self.problems:
-                    break
+                if any(k != KNOWN_KEY2 for _, _, k in self.problems):
+                    break      # (problems explained by the stale-list finding do not end the history)
+            # report a problem that no listed finding explains before one that a finding does
+            self.problems.sort(key=lambda pr: pr[2] is not None)
         finally:
             rig.close()
         return self
@@ -464,7 +481,7 @@ class HistoryRun(object):
     def check_upload(self, rig, u, op):
         from axolotl.ecc.curve import Curve
         from axolotl.ecc.djbec import DjbECPublicKey
-        bad = []
+        bad, stale = [], []
         m = rig.manager
         if u["attrs"] != {"xmlns": "encrypt", "type": "set", "to": SERVER}:
             bad.append("iq attributes %r" % (u["attrs"],))
@@ -503,8 +520,11 @@ class HistoryRun(object):
                     bad.append("prekey %d: offered key differs from the stored key" % int.from_bytes(kid, "big"))
             except Exception:
                 bad.append("prekey %d offered but not stored" % int.from_bytes(kid, "big"))
+                if (int.from_bytes(kid, "big"), val) in self.stale_consumed:
+                    stale.append(bad[-1])
         if bad:
             self.problems.append(("oracle:upload_wellformed", {"step": len(self.ops) - 1, "problems": bad[:5]},
+                                  KNOWN_KEY2 if len(stale) == len(bad) else
                                   KNOWN_KEY if self.reuse_seen and all("prekey" in b and "signed" not in b for b in bad) else None))
 
 
@@ -556,6 +576,11 @@ def gen_script(rng):
             if x < .12:
                 s.append({"op": "disconnected"})
                 connected = False
+            elif x < .26:
+                # the login completes NON-passive although keys may be waiting (in the property's
+                # alphabet: "authenticated(passive or not)"); _unsent_prekeys stays in memory
+                s.append({"op": "authed", "passive": False})
+                authed = True
             else:
                 s.append({"op": "authed"})
                 authed = True
@@ -582,6 +607,7 @@ def gen_script(rng):
 def systematic():
     C, A, D, R = {"op": "connect"}, {"op": "authed"}, {"op": "disconnected"}, {"op": "restart"}
     res, err, ask = {"op": "result"}, {"op": "error"}, {"op": "askkeys"}
+    NP = {"op": "authed", "passive": False}
     return [
         # normal first login: generate, passive login, upload, confirm, reboot, active login
         (5, [C, A, res, D, C, A, res, D, C, A]),
@@ -599,6 +625,12 @@ def systematic():
         # connect twice without login (duplicates in _unsent_prekeys)
         (3, [C, D, C, D, C, A, res]),
         (6, [C, A, res, D, C, A, ask, ask, res, res, D, R, C, A]),
+        # non-passive login while keys wait, key request confirmed, a key consumed, then a second
+        # login on the SAME layer instance (stale _unsent_prekeys): nothing confirmed or consumed
+        # may be offered again
+        (4, [C, NP, ask, res, {"op": "consume", "pick": 0}, D, C, A, res]),
+        (3, [C, NP, ask, res, ask, res, {"op": "consume", "pick": 1}, {"op": "consume", "pick": 0}, D, C, D, C, A]),
+        (5, [C, NP, D, C, NP, ask, {"op": "consume", "pick": 2}, res, D, C, A, res, D, C, A]),
     ]
 
 
@@ -618,19 +650,49 @@ def gen_cases(ctx):
     return cases
 
 
-def resolved_script(ops):
-    """a script that replays exactly the resolved ops"""
+def resolved_script(ops, op_wf=None):
+    """a script that replays exactly the resolved ops (each keeps the well-formedness flag of the
+    script step it came from, so that the same oracles apply when it is replayed)"""
     out = []
-    for o in ops:
+    for n, o in enumerate(ops):
         if o[0] == "authed":
-            out.append({"op": "authed", "passive": o[1], "wf": False})
+            d = {"op": "authed", "passive": o[1]}
         elif o[0] in ("result", "error"):
-            out.append({"op": o[0], "iq": o[1]})
+            d = {"op": o[0], "iq": o[1]}
         elif o[0] == "consume":
-            out.append({"op": "consume", "id": o[1], "source": o[2]})
+            d = {"op": "consume", "id": o[1], "source": o[2]}
         else:
-            out.append({"op": o[0]})
+            d = {"op": o[0]}
+        if op_wf is not None and not op_wf[n]:
+            d["wf"] = False
+        out.append(d)
     return out
+
+
+def realistic(script):
+    """does a resolved script respect the order of events a server / stack produces (one login per
+    connection, requests / replies / messages only on an authenticated connection)?"""
+    connected = authed = False
+    for o in script:
+        k = o["op"]
+        if k == "connect":
+            if connected:
+                return False
+            connected, authed = True, False
+        elif k == "authed":
+            if not connected or authed:
+                return False
+            authed = True
+        elif k in ("askkeys", "result", "error", "consume"):
+            if not authed:
+                return False
+        elif k == "disconnected":
+            if not connected:
+                return False
+            connected = authed = False
+        elif k == "restart":
+            connected = authed = False
+    return True
 
 
 def shrink(ctx, batch, script, pred, budget=40):
@@ -676,7 +738,7 @@ def run(ctx):
     exe = ctx.build_model("C14")
     model = modelrun.Model(exe) if exe else None
     cases = gen_cases(ctx)
-    evaluations = steps = corr_bad = 0
+    evaluations = steps = corr_bad = oracle_hits = 0
     distinct = set()
     opkinds = {}
     nontriv = {}
@@ -693,19 +755,33 @@ def run(ctx):
         found = False
         for name, detail, key in hr.problems:
             found = True
-            rs = resolved_script(hr.ops)
+            rs = resolved_script(hr.ops, hr.op_wf)
 
-            def pred(cand, _n=name, _k=key):
+            keep_real = realistic(rs)
+
+            def pred(cand, _n=name, _k=key, _real=keep_real):
+                if _real and not realistic(cand):
+                    return False     # a shrunk history must stay one a real server can produce
                 r = HistoryRun(ctx, batch, cand, "k").run()
                 return any(n == _n and k == _k for n, _, k in r.problems)
             small = shrink(ctx, batch, rs, pred) if ctx.known_match(key) is None or key is None else rs
-            ctx.violation(name, {"batch": batch, "script": small, "detail": detail, "origin": origin}, key=key)
+            if small is not rs:
+                r3 = HistoryRun(ctx, batch, small, "k").run()
+                detail = next((d for n, d, k in r3.problems if n == name and k == key), detail)
+            ctx.violation(name, {"batch": batch, "script": small, "detail": detail, "origin": origin,
+                                 "server_realistic_history": realistic(small),
+                                 "oracles_failing": sorted(set(n for n, _, k in hr.problems if k == key))},
+                          key=key)
             break
         if model is not None:
             diff = compare(model, batch, hr)
             if diff is not None:
                 corr_bad += 1
-                rs = resolved_script(hr.ops)
+            # a broken correspondence is reported (twice at most) but never ends the search: the
+            # implementation keeps being driven alone through every remaining history and the
+            # implementation-side oracles decide whether a concrete failing history exists
+            if diff is not None and corr_bad <= 2:
+                rs = resolved_script(hr.ops, hr.op_wf)
 
                 def pred2(cand):
                     r = HistoryRun(ctx, batch, cand, "k").run()
@@ -716,14 +792,17 @@ def run(ctx):
                               {"batch": batch, "script": small, "detail": compare(model, batch, r2) or diff,
                                "origin": origin},
                               found_input=any(k is None for _, _, k in r2.problems))
+        if found and any(k is None for _, _, k in hr.problems):
+            oracle_hits += 1
         if ci % 53 == 0:
             ctx.add_sample({"origin": origin, "batch": batch, "ops": [list(o) for o in hr.ops][:14]})
-        if len(ctx.violations) >= 3:
+        if oracle_hits >= 3:
             break
     n_adj, _ = adjust_id_cases(ctx, model)
     if model is not None:
         model.close()
-        ctx.ties["correspondence"] = "ok" if corr_bad == 0 else "broken"
+        ctx.ties["correspondence"] = "ok" if corr_bad == 0 else "broken (%d histories)" % corr_bad
+    ctx.coverage["histories_with_model_mismatch"] = corr_bad
     if not ctx.proof_ok and not ctx.violations:
         ctx.tie_broken_without_input("theorem:" + ctx.failing_theorem(), ctx.ties.get("proof"))
     if model is None and not ctx.violations:
@@ -735,7 +814,7 @@ def run(ctx):
     ctx.coverage["histories_reaching"] = nontriv
     return ctx.finish(
         rule="a case = one history (batch size 3-6, 6-24 events) driven through the real control layer, manager, "
-             "SQLite store and real Signal peers; corpus, 8 systematic histories (first login, lost confirmation, "
+             "SQLite store and real Signal peers; corpus, 11 systematic histories (non-passive login + confirmed key request + consume + re-login on the same layer, first login, lost confirmation, "
              "restart before confirmation, error reply, key request, consume + double use, duplicate connects), "
              "then seeded random histories (about 6% ill-formed steps); after every step events and state are "
              "compared with the model; non-trivial = distinct resolved histories that reached a confirmation, a "
